@@ -414,3 +414,37 @@ package raft
 //@   loop 1 invariant syncLog ==> index == r.lastLogIndex
 //@   loop 1 invariant !syncLog ==> forall(j, spos[ref(c.bufr)] <= j && j < spos[ref(c.bufr)] + req.numEntries && sIdx(ref(c.bufr), j) <= r.configs.Committed.Index && sIdx(ref(c.bufr), j) > r.snaps.index ==> sTerm(ref(c.bufr), j) == r.gterm[sIdx(ref(c.bufr), j)])
 //@   loop 1 decreases req.numEntries
+
+// ---------------------------------------------------------------------------
+// identity (C20)
+
+//@ func lockDir
+//@   trusted
+//@ func unlockDir
+//@   trusted
+
+// openValue (trusted here; T-fs): returns the single value file of (dir, ext), creating
+// "0-0<ext>" only when none exists.
+//@ func openValue
+//@   trusted
+//@   modifies fs
+//@   ensures result1 == nil ==> result0 != nil && isfresh(result0) && result0.dir == dir && result0.ext == ext && ValueInv(result0)
+//@   ensures forall(a, b, old(fs[vfile(dir, ext, a, b)]) ==> fs == old(fs))
+//@   ensures result1 != nil ==> result0 == nil
+
+//@ func SetIdentity
+//@   modifies fs
+//@   ensures [C20.identity-immutable] forall(a, b, old(fs[vfile(storageDir, ".id", a, b)]) && a != 0 && b != 0 && !(a == cid && b == nid) ==> result0 != nil)
+//@   ensures [C20.identity-set] result0 == nil ==> fs[vfile(storageDir, ".id", cid, nid)]
+//@   ensures [C20.identity-nonzero] cid == 0 || nid == 0 ==> result0 != nil && fs == old(fs)
+
+// standard library (T-std)
+//@ func errors.New
+//@   trusted
+//@   ensures result0 != nil
+//@ func fmt.Errorf
+//@   trusted
+//@   ensures result0 != nil
+//@ func os.Stat
+//@   trusted
+//@   ensures result1 == nil ==> result0 != nil
